@@ -2,17 +2,17 @@ SPECIFICATION Spec
 CONSTANTS
   Keys = {"a", "b"}
   NonPub = {"join"}
-  Sizes = {0, 2}
+  Sizes = {0, 2, 3}
   Delays = {TRUE, FALSE}
   Lates = {TRUE, FALSE}
   Threads = {1, 2}
   MaxAdds = 3
-  MaxEnds = 1
+  MaxEnds = 0
   AtomicAdd = FALSE
-  SplitGet = FALSE
+  SplitGet = TRUE
   RecheckOnStore = TRUE
   StaleTimers = FALSE
 VIEW View
-INVARIANTS TypeOK LatUnique PendingAgree TimerSane
-PROPERTIES OrderPreserved LatestCoalesced EndFlushesAll EndDiscards SizeExact
+INVARIANTS TypeOK LatUnique PendingAgree TimerSane SingleWriter
+PROPERTIES OrderPreserved LatestCoalesced NoOrphanFlush SizeExact
 CHECK_DEADLOCK FALSE
